@@ -14,6 +14,7 @@ import StepModel.ComplexBuildWF
 import StepModel.ComplexBuildOK
 import StepModel.ComplexMarks10
 import StepModel.ComplexComplete9
+import StepModel.ComplexBuildDistinct
 /-!
 # C08 — complex instances are accepted exactly when the supertype constraints allow them
 
@@ -499,6 +500,20 @@ theorem C08_accepts_iff_legal_partial {s : Schema} {lvl : Name → Nat} (W : For
     (b : Bool) (hs : supports c [] parts = .ok b) : b = true ↔ Legal s parts = true :=
   (C08_sound_complete_oneof_partial c parts (collectOf_headWF s hx fuel c hc) hnd hsm b hs).trans
     (C08_eval_legal_partial W fuel c hc parts h2)
+
+/-- **… with every hypothesis about the schema only**: the two conditions on the emitted collect are consequences of the
+declarations — on a single-supertype schema whose sub-supertypes are all ABSTRACT (`SubSupersAbstract`) the emitted lists
+have pairwise distinct leaves (`collectOf_distinct`: the leaves of an entity's tree are the entity and, block by block,
+the leaves of its subtypes' trees; different subtypes have disjoint descendant sets), and when every ONEOF has fewer operands
+than LISTEND (`oneofsSmall`) so has every emitted OrList (`collectOf_small`).  So: for every such schema and every
+instance naming at least two different entities, the matcher model's answer on the emitted collect is `true` iff the
+instance is `Spec.Legal`. -/
+theorem C08_accepts_iff_legal_schema_partial {s : Schema} {lvl : Name → Nat} (W : ForestWF s lvl) (hx : s.exprsOK)
+    (habs : SubSupersAbstract s) (hsmall : s.oneofsSmall) (fuel : Nat) (c : Collect) (hc : collectOf s fuel = some c)
+    (parts : List Name) (h2 : ∃ a ∈ parts, ∃ b ∈ parts, a ≠ b) (b : Bool) (hs : supports c [] parts = .ok b) :
+    b = true ↔ Legal s parts = true :=
+  C08_accepts_iff_legal_partial W hx fuel c hc (collectOf_small s hsmall fuel c hc)
+    (collectOf_distinct W habs fuel c hc) parts h2 b hs
 
 /-- the hypotheses are satisfiable on the property's title case, a schema with a ONEOF:
 `a SUPERTYPE OF (ONEOF(b, c) ANDOR d)` — for **every** instance with at least two parts the matcher model answers, and it
